@@ -1,7 +1,9 @@
 package c13
 
 import (
+	"errors"
 	"math/big"
+	"reflect"
 	"sync"
 
 	"github.com/bronlabs/bron-crypto/pkg/base/curves/curve25519"
@@ -138,9 +140,18 @@ func mkField[F libFE[F], FS libField[F]](name string, fs FS, mod *big.Int, deg i
 	return f
 }
 
+// errNullDecoded: CBOR null / undefined decoded into a pointer target gives a nil pointer and no
+// error - that is the CBOR layer's "no value", not an admitted group element; it is judged as a
+// rejection (found by the native fuzzer with the one-byte input f6, which made the harness
+// dereference the nil result).
+var errNullDecoded = errors.New("CBOR null decoded to a nil pointer (no value)")
+
 func nilIfErr[T any](v T, err error) (any, error) {
 	if err != nil {
 		return nil, err
+	}
+	if rv := reflect.ValueOf(v); !rv.IsValid() || (rv.Kind() == reflect.Pointer && rv.IsNil()) {
+		return nil, errNullDecoded
 	}
 	return v, nil
 }
